@@ -13,6 +13,7 @@ from typing import Union
 
 from .ast import BlockNode
 from .ast import ConditionalBlockNode
+from .ast import Partial
 from .ast import PartialScope
 from .builtin.expressions import FilteredExpression
 from .builtin.expressions import Path
@@ -203,14 +204,16 @@ def analyze(template: BoundTemplate, *, include_partials: bool) -> TemplateAnaly
             )
 
             # If we've seen this partial before but with different arguments,
-            # we might want to visit it again but only capture globals.
+            # or with different names in scope, we might want to visit it again
+            # but only capture globals.
+            visit_key = hash((partial.key, _visible_names(partial, scope)))
             _just_globals = partial_name in seen
-            if partial.key in seen[partial_name]:
+            if visit_key in seen[partial_name]:
                 # We've visited this partial template before with the same
-                # arguments.
+                # arguments and the same names in scope.
                 return
 
-            seen[partial_name].add(partial.key)
+            seen[partial_name].add(visit_key)
             partial_name = partial_name or template_name
 
             partial_scope = (
@@ -324,14 +327,16 @@ async def analyze_async(
             )
 
             # If we've seen this partial before but with different arguments,
-            # we might want to visit it again but only capture globals.
+            # or with different names in scope, we might want to visit it again
+            # but only capture globals.
+            visit_key = hash((partial.key, _visible_names(partial, scope)))
             _just_globals = partial_name in seen
-            if partial.key in seen[partial_name]:
+            if visit_key in seen[partial_name]:
                 # We've visited this partial template before with the same
-                # arguments.
+                # arguments and the same names in scope.
                 return
 
-            seen[partial_name].add(partial.key)
+            seen[partial_name].add(visit_key)
             partial_name = partial_name or template_name
 
             partial_scope = (
@@ -369,6 +374,20 @@ async def analyze_async(
         filters=dict(filters),
         tags=dict(tags),
     )
+
+
+def _visible_names(partial: Partial, scope: _StaticScope) -> frozenset[str]:
+    """Return the names a partial template can resolve without reaching for globals.
+
+    The same partial can find a name in scope when loaded from one place and not
+    when loaded from another, so this is part of the key used to decide if a
+    partial needs to be visited again.
+    """
+    names = {str(ident) for ident in partial.in_scope}
+    if partial.scope != PartialScope.ISOLATED:
+        for block_scope in scope.stack:
+            names.update(block_scope)
+    return frozenset(names)
 
 
 def _extract_filters(
@@ -418,7 +437,7 @@ def _analyze_variables(
         variables.add(var)
 
         root = str(var.segments[0])
-        if root not in scope:
+        if root not in scope and not any(v.span == var.span for v in globals[var]):
             globals.add(var)
 
     if child_scope := expression.scope():
